@@ -70,3 +70,111 @@ Theorem C09_roles_linked {T} {O : Ops T} {RL : RingLaws T} {FL : FieldLaws T}
   pt_solution thr true pt pts = ((four * pt_solution thr false pt pts) * (1 / poly_area pts))%T.
 Proof. exact (share_link_inv thr pt pts). Qed.
 Print Assumptions C09_roles_linked.
+
+(** (6) a caveat on (4), found while lifting it to the composed model: its diffuse hypothesis
+    quantifies over ALL table indices, and a table given by lists returns 0 beyond its end --
+    so the hypothesis only allows reflectance 0.  (4) is therefore restated in (7) with the
+    hypotheses restricted to what the model reads. *)
+From SV Require Import Proofs.ReciprocityVis.
+Theorem C09_model_diffuse_everywhere_forces_zero {T} {O : Ops T} (sc : @scene T) b (rho : nat -> T) :
+  (forall w a d, beta sc w a d b = rho w) -> forall w, rho w = 0%T.
+Proof. exact (diffuse_everywhere_forces_zero sc b rho). Qed.
+Print Assumptions C09_model_diffuse_everywhere_forces_zero.
+
+(** (7) (4) with satisfiable hypotheses: the BRDF entry is [rho (wall)] at the incoming sample
+    selected for each visible pair and for each patch a point sees (slot 0); the role link and
+    the fitting condition are asked only of the patches the point SEES (hidden patches carry
+    source energy 0 and receiver factor 0, while the model sets their source-leg distance to 0,
+    so the one-bin offset cannot hold for them) *)
+Theorem C09_model_vis {T} {O : Ops T} {RL : RingLaws T} {FL : FieldLaws T}
+    (sc : @scene T) tm b rho (pA pB : @point_data T) K t :
+  wf_scene sc -> s_nd sc = 1 -> b < s_nb sc ->
+  (forall i, i < s_np sc -> area sc i <> 0%T) ->
+  (forall i j, i < s_np sc -> j < s_np sc -> vis_sym sc i j = true ->
+     beta sc (wall sc j) (in_index sc i j) 0 b = rho (wall sc j)) ->
+  (forall i, i < s_np sc -> nthb (p_vis pA) i = true ->
+     beta sc (wall sc i) (src_in_index sc (as_source pA) i) 0 b = rho (wall sc i)) ->
+  (forall i, i < s_np sc -> nthb (p_vis pB) i = true ->
+     beta sc (wall sc i) (src_in_index sc (as_source pB) i) 0 b = rho (wall sc i)) ->
+  linked_vis sc tm pA -> linked_vis sc tm pB ->
+  fits_vis sc tm b K pA pB -> fits_vis sc tm b K pB pA ->
+  t < n_samples tm ->
+  get2 (mono sc tm (patch_hist sc tm (as_source pA) K) (as_source pA) (as_receiver pB) false None) b t =
+  get2 (mono sc tm (patch_hist sc tm (as_source pB) K) (as_source pB) (as_receiver pA) false None) b t.
+Proof.
+  intros WF Hnd Hb Ha Hdp HdA HdB.
+  exact (mono_reciprocal_vis sc tm b WF Ha Hnd rho Hb Hdp pA pB K t HdA HdB).
+Qed.
+Print Assumptions C09_model_vis.
+
+(** (8) reciprocity of the COMPOSED model (Model/Full.v: polygons -> tiling -> visibility -> form
+    factors -> exchange -> receiver).  A room with one outgoing direction slot whose BRDF tables
+    are constant per wall over the incoming samples; two points A, B.  Then, in every band and
+    bin, the curve at B for a source at A is the curve at A for a source at B (reflections; the
+    direct sound is symmetric by itself) -- provided
+    - for the patches each point sees, the receiver-leg bin (ceiling) is the source-leg bin
+      (truncation) plus one ([room_bins_linked], unfolded in (10); it follows from "no leg length
+      is a multiple of c dt", see (9)),
+    - the delayed energy of the patches the receiver sees fits into the histogram
+      ([room_recv_fits]; the code delays with np.roll: finding receiver_wrap),
+    - patch areas, pi and 4 are not zero.
+    DISCHARGED from the model rather than assumed: receiver factor = 4 x source share / area for
+    the room's own pt_solution values and areas; one visibility vector for both roles of a point;
+    well-formedness of the composed scene; form-factor reciprocity of the composed matrix
+    (area-ratio rule, cf. C05_room_form_factors_computed). *)
+From SV Require Import Model.Frame Model.Tiling Model.Visibility Model.Full
+  Proofs.FullReceiver Proofs.FullReciprocity.
+Theorem C09_room_reciprocal {T} {O : Ops T} {RL : RingLaws T} {FL : FieldLaws T}
+    (rm : @room T) tm b rho (A B : @vec T) K t :
+  length (rm_ref_out rm) = 1 -> rm_ref_in rm <> [] ->
+  (forall w a, w < length (rm_walls rm) -> a < length (rm_ref_in rm) ->
+     beta (room_scene rm) w a 0 b = rho w) ->
+  b < rm_nb rm ->
+  (forall i, i < rm_np rm -> area (room_scene rm) i <> 0%T) ->
+  @tpi T O <> 0%T -> @four T O <> 0%T ->
+  room_bins_linked rm tm A -> room_bins_linked rm tm B ->
+  room_recv_fits rm tm A B K b -> room_recv_fits rm tm B A K b ->
+  t < n_samples tm ->
+  get2 (room_mono rm tm A B K false) b t = get2 (room_mono rm tm B A K false) b t.
+Proof.
+  intros H1 Hin Hd Hb Ha Hpi H4. exact (room_reciprocal rm tm b H1 Hin rho Hd Hb Ha Hpi H4 A B K t).
+Qed.
+Print Assumptions C09_room_reciprocal.
+
+(** (9) over an ordered field with the floor / ceiling laws and pi > 0 only geometric conditions
+    and the fitting condition remain: no scaled leg length to a visible patch is an integer *)
+Theorem C09_room_reciprocal_ordered {T} {O : Ops T} {RL : RingLaws T} {OL : OrderLaws T}
+    {FL : FieldLaws T} {NL : FloorLaws T} {AL : AcosLaws T}
+    (rm : @room T) tm b rho (A B : @vec T) K t :
+  length (rm_ref_out rm) = 1 -> rm_ref_in rm <> [] ->
+  (forall w a, w < length (rm_walls rm) -> a < length (rm_ref_in rm) ->
+     beta (room_scene rm) w a 0 b = rho w) ->
+  b < rm_nb rm ->
+  (forall i, i < rm_np rm -> area (room_scene rm) i <> 0%T) ->
+  (forall P, P = A \/ P = B -> forall k, k < rm_np rm -> nthb (room_point_vis rm P) k = true ->
+     let x := ((vdist P (nthv (rm_centers rm) k) / t_c tm) / t_dt tm)%T in
+     (0 <= x)%T /\ x <> tofnat (ttrunc x)) ->
+  room_recv_fits rm tm A B K b -> room_recv_fits rm tm B A K b ->
+  t < n_samples tm ->
+  get2 (room_mono rm tm A B K false) b t = get2 (room_mono rm tm B A K false) b t.
+Proof.
+  intros H1 Hin Hd Hb Ha Hoff.
+  exact (room_reciprocal_ordered rm tm b rho A B K t H1 Hin Hd Hb Ha
+           (Hoff A (or_introl eq_refl)) (Hoff B (or_intror eq_refl))).
+Qed.
+Print Assumptions C09_room_reciprocal_ordered.
+
+(** (10) the two named hypotheses of (8), unfolded to the room's data *)
+Theorem C09_room_hypotheses_unfolded {T} {O : Ops T} (rm : @room T) tm b (A B : @vec T) K :
+  (room_bins_linked rm tm A <->
+   forall k, k < rm_np rm -> nthb (room_point_vis rm A) k = true ->
+     delay_ceil (vdist (nthv (rm_centers rm) k) A) (t_c tm) (t_dt tm) =
+     S (delay_floor (vdist A (nthv (rm_centers rm) k)) (t_c tm) (t_dt tm))) /\
+  (room_recv_fits rm tm A B K b <->
+   forall k, k < rm_np rm -> nthb (room_point_vis rm B) k = true ->
+     let g := delay_ceil (vdist (nthv (rm_centers rm) k) B) (t_c tm) (t_dt tm) in
+     g < n_samples tm /\
+     forall u, n_samples tm - g <= u -> u < n_samples tm ->
+       get4 (patch_hist (room_scene rm) tm (room_source rm A) K) k (room_recv_slot rm B k) b u = 0%T).
+Proof. split; split; intros H; exact H. Qed.
+Print Assumptions C09_room_hypotheses_unfolded.
